@@ -1,6 +1,6 @@
 //! Node level (C01, C06, C08, C10, C17): run_bab_node of caobab.rs on generated instances and reachable nodes.
 use crate::gen::*;
-use cdecao::caobab::verif_hooks::{precompute, run_node, VNode, VResult};
+use cdecao::caobab::verif_hooks::{precompute, run_node, run_node_opt, VNode, VResult};
 use cdecao::verif::{make_course, make_participant};
 use cdecao::{Course, Participant};
 use serde_json::json;
@@ -138,6 +138,40 @@ pub fn gen_inst(r: &mut Rng, max_c: usize, max_p: usize, rooms_mode: usize) -> I
             courses[f].fixed = r.chance(1, 2);
         }
     }
+    // special shape (derived from the instance, no random draws): course 0 reaches its minimum of 2 only with the help of a participant who
+    // instructs course 1, which nobody but the instructor of course 0 wants (so it cannot take place and its instructor is free to attend);
+    // the instructor of course 0 has own choices whose best penalty is not 0 -- the corner where the theoretical maximum score has to count
+    // the instructor bonus for a course that looks undersubscribed among the non-instructors
+    if nc >= 2 && np >= 3 && !style.contains("+niche") && (nc * 7 + np * 3 + courses[0].max) % 6 == 0 {
+        let pick = |courses: &mut Vec<ICourse>, c: usize, avoid: &[usize]| -> Option<usize> {
+            if let Some(i) = courses[c].instr.first() {
+                return Some(*i);
+            }
+            let i = (0..np).find(|p| !avoid.contains(p) && !courses.iter().any(|k| k.instr.contains(p)))?;
+            courses[c].instr.push(i);
+            Some(i)
+        };
+        if let Some(ix) = pick(&mut courses, 0, &[]) {
+            if let Some(iy) = pick(&mut courses, 1, &[ix]) {
+                let a = (0..np).find(|p| !courses.iter().any(|k| k.instr.contains(p)));
+                if let Some(a) = a {
+                    style.push_str("+lentinstructor");
+                    courses[0].instr.truncate(1);
+                    courses[0].min = 2;
+                    courses[0].max = courses[0].max.max(2);
+                    courses[1].min = 3;
+                    courses[1].max = courses[1].max.max(3);
+                    courses[1].fixed = false;
+                    for p in 0..np {
+                        parts[p].retain(|(c, _)| *c != 0 && *c != 1);
+                    }
+                    parts[ix] = vec![(1, 3)];
+                    parts[iy].insert(0, (0, 0));
+                    parts[a].insert(0, (0, 0));
+                }
+            }
+        }
+    }
     // special shape (1 in 6, with rooms): one course with an instructor that everybody wants first (it is filled up to its maximum), and at least
     // as many rooms as courses, all of a size just below / at the bounds a "the rooms can never bind" shortcut might compute: the largest full
     // size with instructors minus one, the largest size WITHOUT instructors, the largest head count without factor and offset
@@ -255,6 +289,18 @@ pub fn run_impl(inst: &Inst, node: &VNode) -> NOut {
     std::panic::catch_unwind(move || {
         let pre = precompute(&courses, &parts, rooms.as_ref());
         run_node(&courses, &parts, &pre, &node)
+    })
+    .ok()
+}
+
+/// the node function with the logging option `report_no_solution` switched on: the option must not change what the node function returns
+pub fn run_impl_report(inst: &Inst, node: &VNode) -> NOut {
+    let (courses, parts) = build(inst);
+    let rooms = inst.rooms.clone();
+    let node = node.clone();
+    std::panic::catch_unwind(move || {
+        let pre = precompute(&courses, &parts, rooms.as_ref());
+        run_node_opt(&courses, &parts, &pre, &node, true)
     })
     .ok()
 }
@@ -416,7 +462,9 @@ pub fn write_cases(cases: &[(Inst, VNode, NOut)], shards: usize, outdir: &str, p
     let mut metas: Vec<Vec<serde_json::Value>> = vec![Vec::new(); shards];
     for (i, (inst, nd, o)) in cases.iter().enumerate() {
         text[i % shards].push(g_case(inst, nd, o));
-        metas[i % shards].push(json!({"inst": j_inst(inst), "node": j_node(nd), "impl": j_out(o)}));
+        let o_report = run_impl_report(inst, nd);
+        metas[i % shards].push(json!({"inst": j_inst(inst), "node": j_node(nd), "impl": j_out(o), "report_flag_same": o_report == *o,
+                                      "impl_with_report_no_solution": if o_report == *o { json!(null) } else { j_out(&o_report) }}));
     }
     for s in 0..shards {
         if text[s].is_empty() {
